@@ -1821,6 +1821,32 @@ for _i, _what, _r in ((1, 'crc-zero-skips-check', 'C10.6'), (2, 'unarmor-match-n
                       (6, 'end-label-free', 'C10.7')):
     _MD('C10', 'stress-B-mut%02d-%s' % (_i, _what), 'G9-B-mut%02d.diff' % _i, _r)
 
+# ---- C10 wave-2 lessons: optional groups, normalisation on load, lenient decoding, payload strip, case-insensitive labels
+_FINDALL = "m['headers'] = collections.OrderedDict(re.findall('^(?P<key>.+): (?P<value>.+)$\\n?', m['headers'], flags=re.MULTILINE))"
+M('C10', 'crc-line-optional-group', TY, "                         ^=(?P<crc>[A-Za-z0-9+/]{4})(?:\\r?\\n)\n", "                         (?:^=(?P<crc>[A-Za-z0-9+/]{4})(?:\\r?\\n))?\n", 'C10.6')
+M('C10', 'crc-line-alternative-empty', TY, "                         ^=(?P<crc>[A-Za-z0-9+/]{4})(?:\\r?\\n)\n", "                         (?:^=(?P<crc>[A-Za-z0-9+/]{4})(?:\\r?\\n)|)\n", 'C10.6')
+M('C10', 'body-optional-group', TY, "(?P<body>([A-Za-z0-9+/]{1,76}={,2}(?:\\r?\\n))+)\n", "(?P<body>([A-Za-z0-9+/]{1,76}={,2}(?:\\r?\\n))+)?\n", 'C10.6')
+T('C10', 'twin-crc-optional-but-absence-reported', TY, "                         ^=(?P<crc>[A-Za-z0-9+/]{4})(?:\\r?\\n)\n", "                         (?:^=(?P<crc>[A-Za-z0-9+/]{4})(?:\\r?\\n))?\n",
+  more=[(TY, "                warnings.warn('Incorrect crc24', stacklevel=3)\n\n        return m", "                warnings.warn('Incorrect crc24', stacklevel=3)\n\n        else:\n            warnings.warn('Missing crc24', stacklevel=3)\n\n        return m")])
+M('C10', 'headers-key-capitalized-on-load', TY, _FINDALL, "m['headers'] = collections.OrderedDict((key.capitalize(), value) for key, value in re.findall('^(?P<key>.+): (?P<value>.+)$\\n?', m['headers'], flags=re.MULTILINE))", 'C10.7')
+M('C10', 'headers-value-stripped-on-load', TY, _FINDALL, "m['headers'] = collections.OrderedDict([(k, v.strip()) for k, v in re.findall('^(?P<key>.+): (?P<value>.+)$\\n?', m['headers'], flags=re.MULTILINE)])", 'C10.7')
+M('C10', 'headers-lowercase-dictcomp', TY, _FINDALL, "m['headers'] = {k.lower(): v for k, v in re.findall('^(?P<key>.+): (?P<value>.+)$\\n?', m['headers'], flags=re.MULTILINE)}", 'C10.7')
+M('C10', 'headers-comment-filtered', TY, _FINDALL, "m['headers'] = collections.OrderedDict(kv for kv in re.findall('^(?P<key>.+): (?P<value>.+)$\\n?', m['headers'], flags=re.MULTILINE) if kv[0] != 'Comment')", 'C10.7')
+T('C10', 'twin-headers-pairs-through-comprehension', TY, _FINDALL, "pairs = re.findall('^(?P<key>.+): (?P<value>.+)$\\n?', m['headers'], flags=re.MULTILINE)\n            m['headers'] = collections.OrderedDict((name, text) for name, text in pairs)")
+M('C10', 'headers-written-deduplicated-sorted', TY, "for key, val in self.ascii_headers.items()),", "for key, val in sorted(set(self.ascii_headers.items()))),", 'C10.7')
+M('C10', 'label-normalised-on-load', TY, "        if m['hashes'] is not None:\n            m['hashes'] = m['hashes'].split(',')", "        m['magic'] = m['magic'].strip().upper()\n\n        if m['hashes'] is not None:\n            m['hashes'] = m['hashes'].split(',')", 'C10.5')
+M('C10', 'label-compared-case-insensitively', PGP, "unarmored['magic'] != 'SIGNATURE':", "unarmored['magic'].upper() != 'SIGNATURE':", 'C10.5')
+M('C10', 'key-label-compared-case-insensitively', PGP, "'KEY' not in unarmored['magic']:", "'key' not in unarmored['magic'].lower():", 'C10.5')
+M('C10', 'armor-regex-ignorecase', TY, '""", flags=re.MULTILINE | re.VERBOSE)', '""", flags=re.MULTILINE | re.VERBOSE | re.IGNORECASE)', 'C10.5')
+M('C10', 'body-decode-error-swallowed', TY, "            except (binascii.Error, TypeError) as ex:\n                raise PGPError(str(ex)) from ex", "            except (binascii.Error, TypeError) as ex:\n                pass", 'C10.6')
+T('C10', 'twin-crc-decode-guarded-though-group-always-decodes', TY, "            m['crc'] = Header.bytes_to_int(base64.b64decode(m['crc'].encode()))\n            if Armorable.crc24(m['body']) != m['crc']:\n                warnings.warn('Incorrect crc24', stacklevel=3)",
+  "            try:\n                m['crc'] = Header.bytes_to_int(base64.b64decode(m['crc'].encode()))\n            except (binascii.Error, TypeError):\n                m['crc'] = None\n            if m['crc'] is not None and Armorable.crc24(m['body']) != m['crc']:\n                warnings.warn('Incorrect crc24', stacklevel=3)")
+M('C10', 'crc-compared-low-16-bits', TY, "            if Armorable.crc24(m['body']) != m['crc']:", "            if (Armorable.crc24(m['body']) & 0xFFFF) != (m['crc'] & 0xFFFF):", 'C10.6')
+M('C10', 'payload-stripped-before-encoding', TY, "        payload = base64.b64encode(self.__bytes__()).decode('latin-1')", "        payload = base64.b64encode(self.__bytes__().strip()).decode('latin-1')", 'C10.2')
+M('C10', 'payload-text-rstripped-equals', TY, "        payload = base64.b64encode(self.__bytes__()).decode('latin-1')", "        payload = base64.b64encode(self.__bytes__()).decode('latin-1').rstrip('=')", 'C10.2')
+M('C10', 'from-blob-strips-binary-input', TY, "            po = obj.parse(bytearray(blob))", "            po = obj.parse(bytearray(blob).strip())", 'C10.5')
+M('C10', 'from-blob-strips-text-input-only-head', TY, "            po = obj.parse(bytearray(blob, 'latin-1'))", "            po = obj.parse(bytearray(blob[1:], 'latin-1'))", 'C10.5')
+
 # =============================================================================================== C11
 M('C11', 'escape-two-spaces', PGP, "        return re.subn(r'^-', '- -', text, flags=re.MULTILINE)[0]", "        return re.subn(r'^-', '-  -', text, flags=re.MULTILINE)[0]", 'C11.1')
 M('C11', 'unescape-no-multiline', PGP, "        return re.subn(r'^- ', '', text, flags=re.MULTILINE)[0]", "        return re.subn(r'^- ', '', text)[0]", 'C11.1')
@@ -1995,6 +2021,19 @@ for _i in range(1, 11):
     _TD('C11', 'stress-B-twin%02d-reader-regex-respelling' % _i, 'G9-B-twin%02d.diff' % _i)
 for _i, _what, _r in ((7, 'hash-framing-two-or-more', 'C11.3'), (8, 'final-cleartext-line-greedy', 'C11.7')):
     _MD('C11', 'stress-B-mut%02d-%s' % (_i, _what), 'G9-B-mut%02d.diff' % _i, _r)
+
+# ---- C11 wave-2 lessons: dedup / limits while reading, normalisation on load
+_ATTACH = "                self |= PGPSignature() | pkt\n"
+M('C11', 'duplicate-signer-time-skipped', PGP, _ATTACH, "                sig = PGPSignature() | pkt\n                if any(s.signer == sig.signer and s.created == sig.created for s in self._signatures):\n                    continue\n                self |= sig\n", 'C11.2')
+M('C11', 'only-first-signature-read', PGP, _ATTACH, "                if len(self._signatures) >= 1:\n                    continue\n                self |= PGPSignature() | pkt\n", 'C11.2')
+M('C11', 'signature-loop-stops-after-one', PGP, _ATTACH, "                self |= PGPSignature() | pkt\n                break\n", 'C11.2')
+T('C11', 'twin-signature-loop-if-else', PGP, "                if not isinstance(pkt, Signature):  # pragma: no cover\n                    warnings.warn(\"Discarded unexpected packet: {:s}\".format(pkt.__class__.__name__), stacklevel=2)\n                    continue\n                self |= PGPSignature() | pkt\n",
+  "                if isinstance(pkt, Signature):\n                    sig = PGPSignature()\n                    sig |= pkt\n                    self |= sig\n                else:  # pragma: no cover\n                    warnings.warn(\"Discarded unexpected packet: {:s}\".format(pkt.__class__.__name__), stacklevel=2)\n")
+M('C11', 'cleartext-line-endings-normalised-on-load', TY, "        if m['hashes'] is not None:\n            m['hashes'] = m['hashes'].split(',')", "        if m['hashes'] is not None:\n            m['hashes'] = m['hashes'].split(',')\n\n        if m['cleartext'] is not None:\n            m['cleartext'] = m['cleartext'].replace('\\r\\n', '\\n')", 'C11.2')
+M('C11', 'cleartext-rstripped-in-parse', PGP, "            self |= self.dash_unescape(unarmored['cleartext'])", "            self |= self.dash_unescape(unarmored['cleartext']).rstrip()", 'C11.2')
+M('C11', 'hash-header-first-digest-only', PGP, "hashes=','.join(sorted(hashes))", "hashes=','.join(sorted(hashes)[:1])", 'C11.3')
+M('C11', 'unescape-any-whitespace-after-dash', PGP, "        return re.subn(r'^- ', '', text, flags=re.MULTILINE)[0]", "        return re.subn(r'^-\\s', '', text, flags=re.MULTILINE)[0]", 'C11.1')
+M('C11', 'escape-case-from-lines-too', PGP, "        return re.subn(r'^-', '- -', text, flags=re.MULTILINE)[0]", "        return re.subn(r'^-', '- -', text.strip(), flags=re.MULTILINE)[0]", 'C11.1')
 
 # =============================================================================================== C09
 M('C09', 'enc-191', TY, "            if 192 > nl:\n                return Header.int_to_bytes(nl)", "            if 191 > nl:\n                return Header.int_to_bytes(nl)", 'C09.1')
